@@ -254,6 +254,9 @@ func encodeTop(vc *VC, fn *ssa.Function, d *Decl) []inputVar {
 	}
 	// type invariants of results
 	for i, r := range results {
+		if isIface(sig.Results().At(i).Type()) {
+			continue // checked where the concrete value is boxed (MakeInterface) and at the concrete-typed producers
+		}
 		for _, inv := range fr.invFacts(final, sig.Results().At(i).Type(), r) {
 			vc.oblige("typeinv", fmt.Sprintf("result%d", i), rg, inv, "type invariant of result "+fmt.Sprint(i), fr.props, pos)
 		}
